@@ -67,13 +67,57 @@ func c13model(c *Ctx) {
 		if distF == nil && types.Identical(p2, m.ptT) && isFloat64(sig.Results().At(0).Type()) {
 			distF = f
 		}
-		if simpleF == nil {
-			if rb, ok := sig.Results().At(0).Type().Underlying().(*types.Basic); ok && rb.Kind() == types.Bool {
-				if sl, ok := p2.Underlying().(*types.Slice); ok {
-					if inner, ok := sl.Elem().Underlying().(*types.Slice); ok && types.Identical(inner.Elem(), m.ptT) {
-						simpleF = f
-					}
+	}
+	if simpleF == nil {
+		// by shape: a bool function of a segment (two points, or a value of two point fields) and of
+		// paths (a path, a list of paths, or a variadic list)
+		isPts := func(t types.Type) bool {
+			sl, ok := t.Underlying().(*types.Slice)
+			return ok && types.Identical(sl.Elem(), m.ptT)
+		}
+		isPaths := func(t types.Type) bool {
+			if isPts(t) {
+				return true
+			}
+			sl, ok := t.Underlying().(*types.Slice)
+			return ok && isPts(sl.Elem())
+		}
+		isSeg := func(t types.Type) bool {
+			st, ok := t.Underlying().(*types.Struct)
+			if !ok || st.NumFields() != 2 {
+				return false
+			}
+			return types.Identical(st.Field(0).Type(), m.ptT) && types.Identical(st.Field(1).Type(), m.ptT)
+		}
+		for _, f := range c.P.RepoFuncs() {
+			if c.P.DeclPkg(f) != c.P.Pkg("geom") || c.P.Decl(f) == nil {
+				continue
+			}
+			sig := f.Type().(*types.Signature)
+			if sig.Recv() != nil || sig.Results().Len() != 1 || sig.Params().Len() < 2 {
+				continue
+			}
+			if rb, ok := sig.Results().At(0).Type().Underlying().(*types.Basic); !ok || rb.Kind() != types.Bool {
+				continue
+			}
+			n := sig.Params().Len()
+			rest := 0
+			switch {
+			case isSeg(sig.Params().At(0).Type()):
+				rest = 1
+			case n >= 3 && types.Identical(sig.Params().At(0).Type(), m.ptT) && types.Identical(sig.Params().At(1).Type(), m.ptT):
+				rest = 2
+			default:
+				continue
+			}
+			ok := rest < n
+			for i := rest; i < n; i++ {
+				if !isPaths(sig.Params().At(i).Type()) {
+					ok = false
 				}
+			}
+			if ok && (simpleF == nil || c.P.FuncName(f) < c.P.FuncName(simpleF)) {
+				simpleF = f
 			}
 		}
 	}
@@ -247,19 +291,56 @@ func c13model(c *Ctx) {
 				return []oval{oFloat{tol + 50}}, true
 			}
 			return []oval{oFloat{tol - 50}}, true
-		case f == simpleF && len(args) == 3:
-			a, b := idx(args[0]), idx(args[1])
-			var cov []string
-			if paths, ok := args[2].(oSlice); ok {
-				for i := 0; i < paths.length(); i++ {
-					if p, ok := paths.at(i).(oSlice); ok {
-						for j := 0; j < p.length(); j++ {
-							if v := idx(p.at(j)); v >= 0 {
-								cov = append(cov, fmt.Sprint(v))
+		case f == simpleF && len(args) >= 2:
+			// the segment: two points, or a value of two point fields; then the paths: a slice of
+			// paths, a variadic list, or single paths
+			var ends []oval
+			var pathArgs []oval
+			for _, av := range args {
+				if st, ok := av.(*oStruct); ok && st != nil {
+					if _, isPt := st.fields["X"]; isPt && len(ends) < 2 {
+						ends = append(ends, st)
+						continue
+					}
+					var pts []oval
+					for _, fn := range st.order {
+						if q, ok := st.fields[fn].(*oStruct); ok && q != nil {
+							if _, isPt := q.fields["X"]; isPt {
+								pts = append(pts, q)
 							}
 						}
 					}
+					if len(pts) == 2 && len(ends) == 0 {
+						ends = pts
+						continue
+					}
 				}
+				pathArgs = append(pathArgs, av)
+			}
+			if len(ends) != 2 {
+				return []oval{oTop{"simplicity test on something that is not a segment"}}, true
+			}
+			a, b := idx(ends[0]), idx(ends[1])
+			var cov []string
+			var walk func(v oval)
+			walk = func(v oval) {
+				sl, ok := v.(oSlice)
+				if !ok {
+					return
+				}
+				for i := 0; i < sl.length(); i++ {
+					el := sl.at(i)
+					if st, ok := el.(*oStruct); ok && st != nil {
+						if k := idx(st); k >= 0 {
+							cov = append(cov, fmt.Sprint(k))
+						}
+						continue
+					}
+					walk(el)
+				}
+			}
+			for _, pa := range pathArgs {
+				walk(pa)
 			}
 			sort.Strings(cov)
 			key := fmt.Sprintf("simple %d %d [%s]", a, b, strings.Join(cov, " "))
